@@ -586,5 +586,52 @@ theorem quiet_history3_gov_effect (g : Genesis) (hw : g.wf = true) (bs : List Bl
   simp only [hc]
   rw [← h1]
 
+/-- the governance RemoveValidator clause of one block, the state before it and its step -/
+def GovRemClause (s : App) (b : Block) (st : Step) : Prop :=
+  ∀ (gpre gpost : List (List Msg)) (mpre mpost : List Msg) (op : Nat) (v : Val),
+    b.gov = gpre ++ (mpre ++ .remove (some op) :: mpost) :: gpost → s.getVal op = some v →
+    st.out.txrs[b.txs.length + gpre.length]? = some .ok →
+    alookup v.key st.comet = none ∧
+    (st.app.getVal op = none ∨ ∃ w, st.app.getVal op = some w ∧ Unb w ∧ w.key = v.key ∧ st.app.queryPower (some op) = some 0)
+
+def EffectAll3R : App → List Block → List Step → Prop
+  | _, [], [] => True
+  | s, b :: bs, st :: sts => GovRemClause s b st ∧ EffectAll3R st.app bs sts
+  | _, _, _ => False
+
+theorem quiet_run3_gov_remove_effect (bs : List Block) : ∀ (s : App) (c : CSet), G2 s c → QuietRun3 bs s c →
+    EffectAll3R s bs (runFrom genEnv s c bs).1 := by
+  induction bs with
+  | nil => intro s c _ _; simp [runFrom, EffectAll3R]
+  | cons b bs ih =>
+    intro s c g q
+    obtain ⟨o, s', c', hb, hc, _, g'⟩ := block_G2_gov s c b g q.1
+    have ih' := ih s' c' g' (q.2 o s' c' hb hc)
+    unfold runFrom
+    simp only [hb, hc]
+    refine ⟨?_, ih'⟩
+    intro gpre gpost mpre mpost op v hgov hv hok
+    obtain ⟨o2, s2, c2, hb2, hc2, _, heff⟩ := quiet3_block_gov_remove_effect s c b g q.1 gpre gpost mpre mpost op v hgov hv
+    rw [hb] at hb2
+    injection hb2 with hb2
+    injection hb2 with e1 e2
+    subst e1; subst e2
+    rw [hc] at hc2
+    injection hc2 with e3
+    subst e3
+    exact heff hok
+
+/-- along every quiet history, governance included, from every well-formed genesis -/
+theorem quiet_history3_gov_remove_effect (g : Genesis) (hw : g.wf = true) (bs : List Block) (hq : QuietHistory3 g bs) :
+    ∃ first steps, run genEnv g bs = some (first, steps, RunEnd.done) ∧ steps.length = bs.length ∧ EffectAll3R first.app bs steps := by
+  obtain ⟨u, s, c, hi, hc, _, hg⟩ := genesis_G2 g hw
+  have hq' := hq u s c hi hc
+  obtain ⟨h1, h2, _⟩ := quiet_run3 bs s c hg hq'
+  refine ⟨⟨⟨[], u⟩, s, c⟩, (runFrom genEnv s c bs).1, ?_, h2, quiet_run3_gov_remove_effect bs s c hg hq'⟩
+  unfold run
+  rw [hi]
+  simp only [hc]
+  rw [← h1]
+
 end App
 end PoaVerif
